@@ -29,7 +29,7 @@ def showCupErr : CupErr → String
   | .signatureError => "SignatureError"
 
 /-- stream `cup` -/
-def handleCup : List String → String
+def handleCup1 : List String → String
   | ["verify", keys, kid, nonce, req, resp, etag] =>
     match parseKeys keys, parseNat kid, parseBytes nonce, parseBytes req, parseBytes resp with
     | some keys, some kid, some nonce, some req, some resp =>
@@ -63,5 +63,11 @@ def handleCup : List String → String
       | none => "err"
     | none => "bad-op"
   | _ => "bad-op"
+
+/-- `warm A B`: the implementation verifies A and then B on one handler instance; verification is a
+function of its arguments (the model has no handler state to consult), so the answer is B's. -/
+def handleCup : List String → String
+  | "warm" :: rest => if rest.length = 14 then handleCup1 (rest.drop 7) else "bad-op"
+  | l => handleCup1 l
 
 end Omaha.Drv
